@@ -1,5 +1,7 @@
 import Verif.Model.Align
 import Verif.Model.EditDist
+import Verif.Model.FBits
+import Verif.Props.C02Table
 import Verif.Driver.Util
 namespace Verif.Driver
 open Verif.Align
@@ -29,6 +31,14 @@ def alignInput (fs : List (List String)) : Option (Cfg × Input Float) :=
         scale := sfs.getD 0 1.0, factor := sfs.getD 1 0.0,
         scorer := fun x y => mat.getD (x * k + y) 0.0, r := nats r })
   | _ => none
+
+def alignInputFB (fs : List (List String)) : Option (Cfg × Input FB) :=
+  match alignInput fs with
+  | some (cfg, inp) =>
+    some (cfg, { a := inp.a, b := inp.b, gopA := inp.gopA.map FB.ofFloat, gopB := inp.gopB.map FB.ofFloat,
+                 proA := inp.proA, proB := inp.proB, scale := FB.ofFloat inp.scale, factor := FB.ofFloat inp.factor,
+                 scorer := fun x y => FB.ofFloat (inp.scorer x y), r := inp.r })
+  | none => none
 
 def handleAlign (fs : List (List String)) : Option String :=
   match fs.headD [] with
@@ -66,6 +76,34 @@ def handleAlign (fs : List (List String)) : Option String :=
   | ["edit"] =>
     match fs with
     | [_, a, b] => some s!"D {editDist (nats a) (nats b)} {lev (nats a) (nats b)}"
+    | _ => some "bad-request"
+  | ["cellok"] =>
+    -- same fields as `align`, plus three fields: matrix bits (flat), traceback (flat), `k l`
+    match fs.reverse with
+    | kl :: tbs :: mat :: restRev =>
+      match alignInputFB restRev.reverse with
+      | some (cfg, inp) =>
+        let M := inp.M
+        let N := inp.N
+        let mv : Array FB := ((flts mat).map FB.ofFloat).toArray
+        let tv : Array Nat := (nats tbs).toArray
+        let T : Nat → Nat → Cell FB := fun i j =>
+          if i ≤ N ∧ j ≤ M then (mv.getD (i * (M+1) + j) default, tv.getD (i * (M+1) + j) 99) else (default, 99)
+        let K := kernelOf cfg inp
+        if cfg.mode = .local then
+          let k := (nats kl).getD 0 0
+          let l := (nats kl).getD 1 0
+          let ok := tableOkLb K T N M && decide (k ≤ N) && decide (l ≤ M)
+          match tbLocal (fun i j => (T i j).2) inp.a inp.b k l [] with
+          | some (i0, j0, cols) =>
+            some s!"K {if ok then 1 else 0} {(T k l).1.bits.toNat} {(rescoreLocal cfg inp i0 j0 cols).bits.toNat}"
+          | none => some s!"K {if ok then 1 else 0} 0 1"
+        else
+          let ok := tableOkGb K T N M
+          match tbGlobal (fun i j => (T i j).2) inp.a inp.b N M [] with
+          | some cols => some s!"K {if ok then 1 else 0} {(T N M).1.bits.toNat} {(rescoreCols cfg inp cols).bits.toNat}"
+          | none => some s!"K {if ok then 1 else 0} 0 1"
+      | none => some "bad-request"
     | _ => some "bad-request"
   | ["distof"] =>
     -- same fields as `align`, plus a last field: the similarity (bits); returns distance cfg inp sim
